@@ -47,7 +47,7 @@ def run_history(spec, hdir: Path, timeout=600):
         cfg.update(output=str(out), events=str(hdir / f"ev{proc}.ndjson"), proc=proc,
                    resume=proc > 0, kill_at_eval=kills[proc] if proc < len(kills) else None,
                    run_again=spec.get("run_again", 0), save=spec.get("save"),
-                   signal_handling=spec.get("signal_handling", False))
+                   signal_handling=spec.get("signal_handling", False), exit_code=spec.get("exit_code"))
         cfg.update(spec.get("extra", {}))
         cfg.update(spec.get("extra_by_proc", {}).get(str(proc), {}))
         cpath = hdir / f"cfg{proc}.json"
@@ -60,7 +60,8 @@ def run_history(spec, hdir: Path, timeout=600):
             rc = -9
         codes.append(rc)
         files.append(cfg["events"])
-        if rc == 137 and proc < 20:
+        if (rc == 137 or (spec.get("signal_exit") is not None and rc == spec["signal_exit"] and proc == 0)) \
+                and proc < 20:
             proc += 1
             continue
         if rc == 0 and after_done > 0:
